@@ -10,13 +10,14 @@ Driver for C16 (SCC by Tarjan and Gabow, cycle check, Kruskal, union-find).
 family scc*   ops:  e <u> <v>        add an edge to the pending edge list
                     run              build StaticGraph from the pending edges (then forget them) and analyse it
                     gm <n> <mask>    pending := { u->v | bit u*n+v of mask }, then `run`
-              the SAME Tarjan and PathBasedScc objects are used for every run of a case.
+                    fresh            replace both objects by new ones (Tarjan::new(), PathBasedScc::new())
+              otherwise the SAME Tarjan and PathBasedScc objects are used for every run of a case.
               obs per run k:   D k n=<nodes>
                                D k T <canonical partition>   F k T <raw labels>      (Tarjan)
                                D k G <canonical partition>   F k G <raw labels>      (Gabow)
                                D k C <0|1>                                           (cycle_check)
-family mst*   ops:  w <u> <v> <weight> ... ; kruskal
-              obs:  D cost=<c>   D part=<canonical connectivity partition of 0..=max id>   F mst=<u-v-w;...>
+family mst*   ops:  w <u> <v> <weight> ... ; kruskal      (several inputs per case: each `kruskal` consumes the pending edges)
+              obs per call k:  D k cost=<c>   D k part=<canonical connectivity partition of 0..=max id>   F k mst=<u-v-w;...>
 family uf*    ops:  new <n> ; union x y | find x | same x y | nsets | part
               obs per op k:  union/nsets: D k nsets=<c> ; same: D k same=<0|1> ; find: F k find=<r> ;
                              part: D k part=<canonical partition>  F k reps=<find(0),find(1),...>
@@ -110,6 +111,7 @@ def handleScc (c : Case) : CaseOut := Id.run do
     match words l with
     | ["e", a, b] => pending := pending ++ [(parseNat! a, parseNat! b)]
     | ["run"] => doRun := true
+    | ["fresh"] => ts := Tarjan.State.fresh; gs := Gabow.State.fresh
     | ["gm", a, b] => pending := maskEdges (parseNat! a) (parseNat! b); doRun := true
     | _ => return { model := out, verdict := .skip s!"unparsable op '{l}'" }
     if doRun then
@@ -211,59 +213,68 @@ def countOcc (e : Comp.WEdge) (l : List Comp.WEdge) : Nat := (l.filter (· == e)
 
 def handleMst (c : Case) : CaseOut := Id.run do
   let mut inp : List Comp.WEdge := []
-  let mut called := false
+  let mut out : Array String := #[]
+  let mut verdict : Verdict := .ok
+  let mut stuck := false
+  let mut k := 0
+  let mut nontriv := false
+  let mut edgesIn := 0
+  let mut edgesOut := 0
+  let mut ties := 0
   for l in c.ops do
     match words l with
     | ["w", a, b, w] => inp := inp ++ [(parseNat! a, parseNat! b, parseNat! w)]
-    | ["kruskal"] => called := true
-    | _ => return { model := #[], verdict := .skip s!"unparsable op '{l}'" }
-  if !called then return { model := #[], verdict := .skip "no kruskal op" }
-  let n := (Kruskal.maxNode inp 0) + 1
-  -- model
-  let mut out : Array String := #[]
-  let mut stuck := false
-  let mut skipped := 0
-  let mut mlen := 0
-  match Kruskal.kruskal inp with
-  | some (cost, mst) =>
-    out := out.push s!"D cost={cost}"
-    out := out.push s!"D part={match connCanon (Comp.ends mst) n with | some p => joinC p | none => "STUCK"}"
-    out := out.push s!"F mst={renderMst mst}"
-    mlen := mst.length
-    skipped := if mst.length < inp.length then 1 else 0
-  | none => stuck := true; out := out.push "D cost=STUCK"
-  -- judge
-  let mut verdict : Verdict := .ok
-  let total := Comp.cost inp
-  if total ≥ 4294967296 then verdict := .skip "sum of weights does not fit u32"
-  else
-    match findLine c.impl "D cost=", findLine c.impl "D part=", (findLine c.impl "F mst=").bind parseMst with
-    | some cs, some ps, some mst =>
-      let cost := parseNat! cs
-      if mst.any (fun e => countOcc e mst > countOcc e inp) then
-        verdict := .fail s!"mst [{renderMst mst}] is not a sub-multiset of the input"
-      else if Comp.acyclicB (Comp.ends mst) != some true then
-        verdict := .fail s!"mst [{renderMst mst}] contains a cycle"
-      else if Comp.spansB (Comp.ends inp) (Comp.ends mst) != some true then
-        verdict := .fail s!"mst [{renderMst mst}] does not connect everything the input connects"
-      else if cost != Comp.cost mst then
-        verdict := .fail s!"reported cost {cost} but the returned edges weigh {Comp.cost mst}"
-      else if some (parseList ps) != connCanon (Comp.ends inp) n then
-        verdict := .fail s!"connectivity partition [{ps}] differs from the input's"
-      else
-        let prim := primCost inp n
-        if cost != prim then
-          verdict := .fail s!"cost {cost} is not minimal: Prim's algorithm finds a spanning forest of cost {prim}"
-        else if inp.length ≤ 10 then
-          match Comp.minForestCost inp with
-          | some m => if cost != m then verdict := .fail s!"cost {cost} is not minimal: enumeration finds a spanning forest of cost {m}"
-          | none => verdict := .fail "judge: enumeration found no spanning forest / closure out of fuel"
-    | _, _, _ => verdict := .fail s!"implementation produced no observation ({" | ".intercalate (c.impl.toList.take 6)})"
+    | ["kruskal"] =>
+      let cur := inp
+      inp := []
+      let n := (Kruskal.maxNode cur 0) + 1
+      -- model
+      let mut mlen := 0
+      match Kruskal.kruskal cur with
+      | some (cost, mst) =>
+        out := out.push s!"D {k} cost={cost}"
+        out := out.push s!"D {k} part={match connCanon (Comp.ends mst) n with | some p => joinC p | none => "STUCK"}"
+        out := out.push s!"F {k} mst={renderMst mst}"
+        mlen := mst.length
+      | none => stuck := true; out := out.push s!"D {k} cost=STUCK"
+      edgesIn := edgesIn + cur.length
+      edgesOut := edgesOut + mlen
+      if mlen < cur.length && mlen ≥ 2 then nontriv := true
+      if cur.any (fun e => (cur.filter fun f => f.2.2 == e.2.2).length ≥ 2) then ties := ties + 1
+      -- judge
+      if verdict matches .ok then
+        let total := Comp.cost cur
+        if total ≥ 4294967296 then verdict := .skip s!"call {k}: sum of weights does not fit u32"
+        else
+          match findLine c.impl s!"D {k} cost=", findLine c.impl s!"D {k} part=", (findLine c.impl s!"F {k} mst=").bind parseMst with
+          | some cs, some ps, some mst =>
+            let cost := parseNat! cs
+            if mst.any (fun e => countOcc e mst > countOcc e cur) then
+              verdict := .fail s!"call {k}: mst [{renderMst mst}] is not a sub-multiset of the input"
+            else if Comp.acyclicB (Comp.ends mst) != some true then
+              verdict := .fail s!"call {k}: mst [{renderMst mst}] contains a cycle"
+            else if Comp.spansB (Comp.ends cur) (Comp.ends mst) != some true then
+              verdict := .fail s!"call {k}: mst [{renderMst mst}] does not connect everything the input connects"
+            else if cost != Comp.cost mst then
+              verdict := .fail s!"call {k}: reported cost {cost} but the returned edges weigh {Comp.cost mst}"
+            else if some (parseList ps) != connCanon (Comp.ends cur) n then
+              verdict := .fail s!"call {k}: connectivity partition [{ps}] differs from the input's"
+            else
+              let prim := primCost cur n
+              if cost != prim then
+                verdict := .fail s!"call {k}: cost {cost} is not minimal: Prim's algorithm finds a spanning forest of cost {prim}"
+              else if cur.length ≤ 10 then
+                match Comp.minForestCost cur with
+                | some m => if cost != m then verdict := .fail s!"call {k}: cost {cost} is not minimal: enumeration finds a spanning forest of cost {m}"
+                | none => verdict := .fail s!"call {k}: judge: enumeration found no spanning forest / closure out of fuel"
+          | _, _, _ => verdict := .fail s!"call {k}: implementation produced no observation ({" | ".intercalate (c.impl.toList.take 6)})"
+      k := k + 1
+    | _ => return { model := out, verdict := .skip s!"unparsable op '{l}'" }
+  if k == 0 then return { model := #[], verdict := .skip "no kruskal op" }
   if stuck && (verdict matches .ok) then verdict := .fail "model-out-of-fuel (or model panic branch) on an in-domain input"
-  let ties := inp.any fun e => (inp.filter fun f => f.2.2 == e.2.2).length ≥ 2
   return { model := out, verdict := verdict,
-           stats := [("nontrivial", bit (skipped ≥ 1 && mlen ≥ 2)), ("mst_inputs", "1"), ("mst_edges_in", toString inp.length),
-                     ("mst_edges_out", toString mlen), ("mst_ties", bit ties)] }
+           stats := [("nontrivial", bit nontriv), ("mst_inputs", toString k), ("mst_edges_in", toString edgesIn),
+                     ("mst_edges_out", toString edgesOut), ("mst_ties", toString ties)] }
 
 /-! ### family uf -/
 
